@@ -252,6 +252,14 @@ def cli_part(chk):
                            ("unknown experiment", ["-D", "c.yaml", "NoSuchExperiment"]), ("missing configuration file", ["-D", "missing.yaml"]),
                            ("experiment name with braces", ["-D", "c.yaml", "{x}"])]:
             expect(name, argv, 3, no_start=True, msg_needed=True)
+        for name, argv in [("executor filter without a name", ["-D", "c.yaml", "X", "e"]), ("executor filter with three parts", ["-D", "c.yaml", "e:E:x"]),
+                           ("bare filter letters", ["-D", "c.yaml", "X", "s", "t"])]:
+            expect(name, argv, 3, no_start=True, msg_needed=True)
+        # improper format strings in a command - with braces in the command, the benchmark name and the offending key
+        for k, command in enumerate(["%(benchmark)s %(nokey)s {brace}", "%(benchmark)s %(cores) {b}", "{x} %(benchmark)d %(invocation)s",
+                                     "%(benchmark)s %(no{key})s", "%(benchmark)s %(invocation)s %(input)z {0}"]):
+            expect("improper format string %d in a command with braces" % k, ["-D", "c.yaml"], 3,
+                   raw=cli_config(d, [{"B{a}": {"extra_args": "{y}"}}, "Bb"], command=command), script={}, no_start=True, msg_needed=True)
         undefined = cli_config(d, ["Ba"])
         undefined["experiments"]["X"]["executions"] = [{"Undefined{e}": {"suites": ["S"]}}]
         expect("undefined executor", ["-D", "c.yaml"], 3, raw=undefined, no_start=True, msg_needed=True)
